@@ -46,7 +46,10 @@ type PartitionRouter struct {
 	cancel context.CancelFunc
 
 	mu     sync.RWMutex
-	routes map[string]string // "topic/partition" -> brokerID
+	routes map[string]string
+	// rev is the etcd revision the table reflects: the watch resumes right
+	// after it, so no change between a (re)load and the watch start is missed.
+	rev int64 // "topic/partition" -> brokerID
 }
 
 // NewPartitionRouter creates a router and starts watching etcd for lease changes.
@@ -130,6 +133,9 @@ func (r *PartitionRouter) loadAll(ctx context.Context) error {
 	}
 	r.mu.Lock()
 	r.routes = fresh
+	if resp.Header != nil {
+		r.rev = resp.Header.Revision
+	}
 	r.mu.Unlock()
 	r.logger.Info("loaded partition routes from etcd", "count", len(fresh))
 	return nil
@@ -137,13 +143,22 @@ func (r *PartitionRouter) loadAll(ctx context.Context) error {
 
 func (r *PartitionRouter) watch(ctx context.Context) {
 	for {
-		watchChan := r.client.Watch(ctx, partitionLeasePrefix+"/", clientv3.WithPrefix(), clientv3.WithPrevKV())
+		opts := []clientv3.OpOption{clientv3.WithPrefix(), clientv3.WithPrevKV()}
+		r.mu.RLock()
+		if r.rev > 0 {
+			opts = append(opts, clientv3.WithRev(r.rev+1))
+		}
+		r.mu.RUnlock()
+		watchChan := r.client.Watch(ctx, partitionLeasePrefix+"/", opts...)
 		for resp := range watchChan {
 			if resp.Err() != nil {
 				r.logger.Warn("partition lease watch error", "error", resp.Err())
 				continue
 			}
 			r.mu.Lock()
+			if resp.Header.Revision > r.rev {
+				r.rev = resp.Header.Revision
+			}
 			for _, ev := range resp.Events {
 				etcdKey := string(ev.Kv.Key)
 				routeKey, ok := leaseKeyToRouteKey(etcdKey)
